@@ -1022,6 +1022,20 @@ let op_itemx args lib =
       @ List.concat_map (fun k -> put_sel (post_select_link p (z_of_int k))) numbers
       @ put_sel (post_media p)
     with Model_panic -> panic_marker
+  end else if ctor = 2 then begin
+    let (kind, l) = take_text lib in
+    let (actor, amsg, l) = take_fval take_text l in
+    let (tname, l) = take_text l in
+    let (tw, _) = take_texts (2 * List.length widths) l in
+    let tbl = List.combine (List.concat_map (fun w -> [(w, 0); (w, 1)]) widths) tw in
+    let a = { v_kind = kind; v_actor = actor; v_actor_msg = amsg; v_target_name = tname;
+              v_target_string = (fun w -> try List.assoc (int_of_z w, 0) tbl with Not_found -> []);
+              v_target_preview = (fun w -> try List.assoc (int_of_z w, 1) tbl with Not_found -> []) } in
+    try
+      [0] @ put_text (activity_name a)
+      @ List.concat_map (fun w -> (match activity_string c a (z_of_int w) with Ok t -> put_text t | Panic -> raise Model_panic)
+                                  @ (match activity_preview c a (z_of_int w) with Ok t -> put_text t | Panic -> raise Model_panic)) widths
+    with Model_panic -> panic_marker
   end else begin
     let (kind, l) = take_text lib in
     let (name, _, l) = take_fval take_text l in
